@@ -124,6 +124,14 @@ def larger_configs(tier):
                      'dec_kwargs': dict(bpu), '_intruder_p': ip})
     cfgs.append({'decoder': 'MatchingDecoder', 'code': 'Toric2DCode', 'size': [3, 4], 'noise': 'Zbias',
                  'p': 0.08, '_intruder_p': 0.3})
+    # channels with structural zeros (pure X / Z / Y) for the decoders that
+    # derive matching weights from the channel
+    for dname, cname, size, noise in [('MatchingDecoder', 'Toric2DCode', (3, 4), 'X'),
+                                      ('MatchingDecoder', 'Planar2DCode', (3, 3), 'Z'),
+                                      ('MatchingDecoder', 'RotatedPlanar2DCode', (3, 3), 'Y'),
+                                      ('SweepMatchDecoder', 'Toric3DCode', (3, 3, 3), 'Z'),
+                                      ('XCubeMatchingDecoder', 'XCubeCode', (2, 2, 2), 'Z')]:
+        cfgs.append({'decoder': dname, 'code': cname, 'size': list(size), 'noise': noise, 'p': 0.08})
     cfgs.append({'decoder': 'UnionFindDecoder', 'code': 'Toric2DCode', 'size': [4, 4], 'noise': 'depol',
                  'p': 0.06, '_intruder_p': 0.2})
     # the randomised sweep decoders: no purity across objects is required, but
